@@ -44,6 +44,44 @@ func (s *State) clone() *State {
 	return &c
 }
 
+// Model is a stand-alone session model with the semantics of one backend connection: a
+// check can feed it the SET statements a client issued to obtain the state a MySQL server
+// would be in had it received them directly.
+type Model struct {
+	st         *State
+	defCharset string
+	extra      map[string]string
+}
+
+// NewModel returns a session in the server-default state.
+func NewModel(defCharset string, extraVars map[string]string) *Model {
+	if defCharset == "" {
+		defCharset = "utf8mb4"
+	}
+	return &Model{st: newState(defCharset, defaultCollation[defCharset]), defCharset: defCharset, extra: extraVars}
+}
+
+// Exec applies a SET statement atomically; a non-SET statement is an error.
+func (m *Model) Exec(sql string) error {
+	as, isSet, perr := parseSet(sql)
+	if !isSet {
+		return fmt.Errorf("not a SET statement: %s", sql)
+	}
+	if perr != nil {
+		return perr
+	}
+	scratch := m.st.clone()
+	for _, a := range as {
+		if e := scratch.apply(a, m.defCharset, m.extra); e != nil {
+			return e
+		}
+	}
+	m.st = scratch
+	return nil
+}
+
+func (m *Model) Snapshot() Snapshot { return m.st.Snapshot() }
+
 // Snapshot is an immutable copy of a State with a canonical rendering.
 type Snapshot struct {
 	Charset   string            `json:"charset"`
